@@ -73,6 +73,9 @@ Proof.
   - destruct (ins _ _ h this new (Some old)) as [h1 r1] eqn:E1. pose proof (G_ins _ _ _ _ _ _ _ W Ht E1) as [W1 L1].
     destruct (is_err r1); [intros [= <- _]; split; assumption|].
     intros E2. eapply G_trans; [split; eassumption|]. eapply G_p_remove; eauto.
+  - destruct (ins _ _ h this new (Some old)) as [h1 r1] eqn:E1. pose proof (G_ins _ _ _ _ _ _ _ W Ht E1) as [W1 L1].
+    destruct (is_err r1); [intros [= <- _]; split; assumption|].
+    intros E2. eapply G_trans; [split; eassumption|]. eapply G_p_remove; eauto.
 Qed.
 
 Lemma G_cd_append : forall h n s h' r, WFup h -> cd_append h n s = (h', r) -> G h h'.
@@ -81,12 +84,12 @@ Lemma G_cd_set : forall h n s h' r, WFup h -> cd_set h n s = (h', r) -> G h h'.
 Proof. intros h n s h' r W. unfold cd_set. destruct (n_ro _); [done_same|]. intros [= <- _]. apply G_upd; auto with upres. Qed.
 Lemma G_cd_delete : forall h n a b h' r, WFup h -> cd_delete h n a b = (h', r) -> G h h'.
 Proof.
-  intros h n a b h' r W. unfold cd_delete. destruct (n_ro _); [done_same|]. destruct (_ <? _); [done_same|].
+  intros h n a b h' r W. unfold cd_delete. destruct (n_ro _); [done_same|]. destruct (N.ltb _ _); [done_same|].
   intros [= <- _]. apply G_upd; auto with upres.
 Qed.
 Lemma G_cd_insert : forall h n a s h' r, WFup h -> cd_insert h n a s = (h', r) -> G h h'.
 Proof.
-  intros h n a s h' r W. unfold cd_insert. destruct (n_ro _); [done_same|]. destruct (_ <? _); [done_same|].
+  intros h n a s h' r W. unfold cd_insert. destruct (n_ro _); [done_same|]. destruct (N.ltb _ _); [done_same|].
   intros [= <- _]. apply G_upd; auto with upres.
 Qed.
 Lemma G_cd_replace : forall h n a b s h' r, WFup h -> cd_replace h n a b s = (h', r) -> G h h'.
@@ -108,7 +111,7 @@ Qed.
 Lemma G_split : forall h n off h' r, WFup h -> n < length h -> n_ty (nd h n) <> TDoc -> split_text cfg_fixed h n off = (h', r) -> G h h'.
 Proof.
   intros h n off h' r W Hn T. unfold split_text, alloc, v_insert.
-  destruct (n_ro _); [done_same|]. destruct (_ <? _); [done_same|].
+  destruct (n_ro _); [done_same|]. destruct (N.ltb _ _); [done_same|].
   destruct (pub_odoc h n) as [doc|]; [|done_same].
   set (x := fresh _ _ _ _ _). set (h1 := h ++ [x]).
   assert (G1 : G h h1) by (subst h1 x; apply G_alloc; auto).
@@ -119,9 +122,9 @@ Proof.
     destruct (ins ins_fuel cfg_fixed h1 p (length h) (next_sib h1 n)) as [h2 r2] eqn:E2.
     pose proof (G_ins _ _ _ _ _ _ _ W1 Hp E2) as [W2 L2].
     destruct (is_err r2); [done_same|]. intros [= <- _].
-    destruct (G_upd h2 n (set_val (firstn off (n_val (nd h n)))) ltac:(auto with upres) W2). split; [assumption|lia].
+    destruct (G_upd h2 n (set_val (firstn (N.to_nat off) (n_val (nd h n)))) ltac:(auto with upres) W2). split; [assumption|lia].
   - cbn [is_err]. intros [= <- _].
-    destruct (G_upd h1 n (set_val (firstn off (n_val (nd h n)))) ltac:(auto with upres) W1). split; [assumption|lia].
+    destruct (G_upd h1 n (set_val (firstn (N.to_nat off) (n_val (nd h n)))) ltac:(auto with upres) W1). split; [assumption|lia].
 Qed.
 
 Lemma G_norm : forall fuel h this kid h' r, WFup h -> norm fuel h this kid = (h', r) -> G h h'.
@@ -178,7 +181,7 @@ Proof.
   unfold alloc.
   destruct (clone_shallow_ok h n T) as [So St].
   pose proof (G_alloc h _ W So St) as [W1 L1]. rewrite app_length in L1. cbn [length] in L1.
-  destruct (deep && negb (is_leaf (n_ty (nd h n)))); [|intros [= <- _]; split; [assumption|rewrite app_length; cbn; lia]].
+  destruct (_ && negb (is_leaf (n_ty (nd h n)))); [|intros [= <- _]; split; [assumption|rewrite app_length; cbn; lia]].
   match goal with |- context [clone_kids _ _ _ ?X _ _] => set (h1 := X) end.
   assert (G1 : WFup h1 /\ length h1 = length h + 1).
   { subst h1. destruct (n_ty (nd h n)); try (split; [assumption|rewrite app_length; reflexivity]).
@@ -197,6 +200,71 @@ Qed.
 
 Lemma G_attr : forall h e f, WFup h -> G h (upd h e (set_attrs f)).
 Proof. intros. apply G_upd; auto with upres. Qed.
+
+Lemma up_pres_name v : up_pres (set_name v). Proof. intros []; reflexivity. Qed.
+Lemma up_pres_ns v : up_pres (set_ns v). Proof. intros []; reflexivity. Qed.
+#[export] Hint Resolve up_pres_name up_pres_ns : upres.
+
+Lemma G_rename_move : forall k h old new h' r, WFup h -> new < length h ->
+  rename_move k cfg_fixed h old new = (h', r) -> G h h'.
+Proof.
+  induction k as [|k IH]; intros h old new h' r W Hn; cbn [rename_move]; [done_same|].
+  destruct (n_first (nd h old)); [|done_same].
+  destruct (p_remove h old i) as [h1 r1] eqn:E1. pose proof (G_p_remove _ _ _ _ _ W E1) as [W1 L1].
+  destruct (is_err r1); [intros [= <- _]; split; assumption|].
+  destruct (ins ins_fuel cfg_fixed h1 new i None) as [h2 r2] eqn:E2.
+  assert (Hn1 : new < length h1) by lia.
+  pose proof (G_ins _ _ _ _ _ _ _ W1 Hn1 E2) as [W2 L2].
+  destruct (is_err r2); [intros [= <- _]; split; [assumption|lia]|]. intros E3.
+  assert (Hn2 : new < length h2) by lia.
+  destruct (IH _ _ _ _ _ W2 Hn2 E3). split; [assumption|lia].
+Qed.
+
+Lemma G_rename : forall h d n ns nm h' r, WFup h -> rename_node cfg_fixed h d n ns nm = (h', r) -> G h h'.
+Proof.
+  intros h d n ns nm h' r W. unfold rename_node, alloc, v_insert.
+  destruct (negb (oid_eqb _ _)); [done_same|].
+  destruct (negb (_ || _)) eqn:ET; [done_same|].
+  destruct (n_nsimpl (nd h n)).
+  { destruct (G_upd h n (set_name nm) ltac:(auto with upres) W) as [W1 L1].
+    destruct (ns_bind _ ns nm); intros [= <- _]; [|split; assumption].
+    destruct (G_upd _ n (set_ns s) ltac:(auto with upres) W1). split; [assumption|lia]. }
+  destruct ns as [|c ns]; [intros [= <- _]; apply G_upd; auto with upres|].
+  destruct (negb (valid_name nm)); [done_same|].
+  destruct (ns_bind _ _ nm) as [uri|]; [|done_same].
+  set (x := mkNode _ nm _ _ _ _ _ _ _ _ _ _ _ _ _). set (h1 := h ++ [x]).
+  assert (Tx : n_ty (nd h n) <> TDoc).
+  { intros T. rewrite T in ET. discriminate. }
+  assert (G1 : G h h1) by (subst h1 x; apply G_alloc; auto).
+  destruct G1 as [W1 L1].
+  assert (Ll : length h < length h1) by (subst h1; rewrite app_length; cbn; lia).
+  set (par := if ntype_eqb (n_ty (nd h n)) TAttr then None else parent h1 n).
+  destruct par as [p|] eqn:Ep.
+  - assert (Hp : p < length h1).
+    { subst par. destruct (ntype_eqb _ TAttr); [discriminate|]. destruct W1 as [V _ _ _].
+      destruct (Nat.lt_ge_cases n (length h1)) as [Hn|Hn].
+      - apply (V n p Hn). rewrite vparent_uv. exact Ep.
+      - unfold parent, nd in Ep. rewrite nth_overflow in Ep by assumption. discriminate. }
+    destruct (v_remove h1 p n) as [h2 r2] eqn:E2. pose proof (G_v_remove _ _ _ _ _ W1 E2) as [W2 L2].
+    destruct (is_err r2); [intros [= <- _]; split; [assumption|lia]|].
+    destruct (rename_move _ _ h2 n (length h)) as [h3 r3] eqn:E3.
+    assert (Hl2 : length h < length h2) by lia.
+    pose proof (G_rename_move _ _ _ _ _ _ W2 Hl2 E3) as [W3 L3].
+    destruct (is_err r3); [intros [= <- _]; split; [assumption|lia]|].
+    destruct (ins ins_fuel cfg_fixed h3 p (length h) (next_sib h1 n)) as [h4 r4] eqn:E4.
+    assert (Hp3 : p < length h3) by lia.
+    pose proof (G_ins _ _ _ _ _ _ _ W3 Hp3 E4) as [W4 L4].
+    destruct (is_err r4); intros [= <- _]; [split; [assumption|lia]|].
+    destruct (G_upd h4 (length h) (set_attrs (n_attrs (nd h4 n))) ltac:(auto with upres) W4) as [W5 L5].
+    destruct (G_upd _ n (set_attrs []) ltac:(auto with upres) W5) as [W6 L6]. split; [assumption|lia].
+  - cbn [is_err].
+    destruct (rename_move _ _ h1 n (length h)) as [h3 r3] eqn:E3.
+    pose proof (G_rename_move _ _ _ _ _ _ W1 Ll E3) as [W3 L3].
+    destruct (is_err r3); [intros [= <- _]; split; [assumption|lia]|]. cbn [is_err].
+    intros [= <- _].
+    destruct (G_upd h3 (length h) (set_attrs (n_attrs (nd h3 n))) ltac:(auto with upres) W3) as [W5 L5].
+    destruct (G_upd _ n (set_attrs []) ltac:(auto with upres) W5) as [W6 L6]. split; [assumption|lia].
+Qed.
 
 (** every operation *)
 Lemma step_G : forall h o h' r, WFup h -> step h o = (h', r) -> G h h'.
@@ -218,7 +286,7 @@ Proof.
   - destruct (_ && _); [|done_same]. apply G_cd_insert; assumption.
   - destruct (_ && _); [|done_same]. apply G_cd_delete; assumption.
   - destruct (_ && _); [|done_same]. apply G_cd_replace; assumption.
-  - destruct (_ && _); [|done_same]. unfold cd_substring. destruct (_ <? _); done_same.
+  - destruct (_ && _); [|done_same]. unfold cd_substring. destruct (N.ltb _ _); done_same.
   - destruct (Nat.ltb_spec n (length h)); cbn [andb]; [|done_same].
     destruct (ntype_eqb (n_ty (nd h n)) TText || ntype_eqb (n_ty (nd h n)) TCData) eqn:E; [|done_same].
     apply G_split; try assumption. intros T. rewrite T in E. discriminate.
@@ -228,6 +296,7 @@ Proof.
   - destruct (_ && _); [|done_same]. unfold remove_attribute. destruct (n_ro _); [done_same|].
     intros [= <- _]; apply G_attr; assumption.
   - destruct (_ && _); [|done_same]. unfold get_attribute. done_same.
+  - destruct (_ && _); [|done_same]. apply G_rename; assumption.
 Qed.
 
 Lemma WFup_init : forall n, WFup (init_heap n).
